@@ -91,8 +91,10 @@ Definition plain_bufsize (P : prims) (c : cfg) (size : Z) : Z :=
 
 (* iv = iv_out of the link (random nonce of the constructor; in CTR mode the derived nonce).
    Result: bytes written to the descriptor (IV once, line, tag) and the new state; None = Send returns false
-   before anything is written. *)
+   before anything is written (nothing on the wire, sender state unchanged): a negative integer on an encrypted link
+   (it cannot be represented with the length-hiding offset), an integer that is too large. *)
 Definition send (P : prims) (c : cfg) (iv : bytes) (st : sstate) (m : Z) : option (bytes * sstate) :=
+  if encr c && (m <? 0)%Z then None else
   let tmp := if encr c then (m + hide_length)%Z else m in
   let size := sizeinbase62 tmp in
   if (buf_in_size <=? size * 2)%Z then None else
